@@ -1,5 +1,6 @@
 // Package xmlwf decides XML 1.0 + Namespaces well-formedness of a part.
-// Pass 1 uses encoding/xml in strict mode (tag balance, entities, character legality);
+// A strict scanner (strict.go) checks the XML 1.0 productions and the namespace constraints; then
+// pass 1 uses encoding/xml in strict mode (tag balance, entities, character legality);
 // pass 2 walks raw tokens to check what Go's decoder tolerates: duplicate attributes,
 // undeclared namespace prefixes, several roots, text outside the root, '<' in attribute values.
 package xmlwf
@@ -24,6 +25,12 @@ func Check(data []byte) error {
 	if err := rawAttrScan(data); err != nil {
 		return err
 	}
+	// the strict scanner decides what encoding/xml is lenient about (see strict.go); texts with a DOCTYPE are
+	// judged by the two encoding/xml passes only
+	skipped, err := strictCheck(data)
+	if err != nil {
+		return err
+	}
 	dec := xml.NewDecoder(bytes.NewReader(data))
 	dec.Strict = true
 	depth, roots := 0, 0
@@ -33,6 +40,11 @@ func Check(data []byte) error {
 			break
 		}
 		if err != nil {
+			// encoding/xml rejects "]]>" in attribute values too, where XML allows it; the strict scanner has
+			// already established that it does not occur in character data, so its verdict stands
+			if !skipped && strings.Contains(err.Error(), "unescaped ]]> not in CDATA section") {
+				return nil
+			}
 			return fmt.Errorf("pass1: %w", err)
 		}
 		switch t := tok.(type) {
